@@ -164,7 +164,11 @@ pub fn noise(rng: &mut Rng, phase: Phase, max_pair: usize) -> Rec {
         3..=4 => { let t = loop { let t = rng.below(256) as u8; if !(1..=11).contains(&t) { break t; } }; let id = if rng.chance(1, 2) { 0 } else { rng.below(65536) as u16 }; Rec::new(t, id, small(rng), pad_bytes(rng)) }
         5 => Rec::new(T_GETVALUES, { let i = foreign(rng); if i == 0 { 7 } else { i } }, gv_body(rng, max_pair), pad_bytes(rng)),  // GetValues with a request id: skipped
         6 => match phase {
-            Phase::Active(_) => { let mut id = foreign(rng); if id == 0 { id = 9 } if Phase::Active(id) == phase { id ^= 1; if id == 0 { id = 2; } } begin(id, rng.range(0, 5) as u16, rng.next() as u8, pad_bytes(rng)) }
+            Phase::Active(_) => { let mut id = foreign(rng); if id == 0 { id = 9 } if Phase::Active(id) == phase { id ^= 1; if id == 0 { id = 2; } } if rng.chance(1, 4) {
+                    // a foreign-id BeginRequest whose header announces a body of some other length than 8: refused all the same, and skipped by
+                    // the length its HEADER gives (during a request the body of a foreign BeginRequest is never looked at)
+                    let n = *rng.pick(&[0usize, 1, 7, 9, 16, 24, 40]); Rec::new(T_BEGIN, id, rng.bytes(n), pad_bytes(rng))
+                } else { begin(id, rng.range(0, 5) as u16, rng.next() as u8, pad_bytes(rng)) } }
             Phase::Idle => begin(if rng.chance(1, 5) { 0 } else { rng.below(65536) as u16 }, *rng.pick(&[0u16, 4, 5, 255, 256, 65535]), rng.next() as u8, pad_bytes(rng)),   // unknown role: rejected, not started
         },
         7 => { let t = *rng.pick(&[T_ABORT, T_END, T_PARAMS, T_STDIN, T_STDOUT, T_STDERR, T_DATA, T_GETVALUESRESULT, T_UNKNOWN]); Rec::new(t, foreign(rng), small(rng), pad_bytes(rng)) }
